@@ -96,7 +96,14 @@ def load(fname, delimiter=",", with_time=False):
         if len(c):  # Converters exist, so use them.
             try:
                 data = np.genfromtxt(
-                    fname, delimiter=delimiter, deletechars="", dtype=None, names=True, converters=c
+                    fname,
+                    delimiter=delimiter,
+                    deletechars="",
+                    dtype=None,
+                    names=True,
+                    converters=c,
+                    # Empty fields of columns with a float converter are missing values, not zeros
+                    filling_values={k: np.nan for k, v in c.items() if v is _string_to_float} or None,
                 )
                 return _boolean_to_nan(data, fname)
             except (
